@@ -81,6 +81,7 @@ type Task struct {
 	Tag        string      // free for the world
 	Data       interface{} // free for the world (scheduler goroutine only)
 	Data0      []byte // pending request bytes (scheduler-owned copy)
+	Born       int    // scheduler step at which the task was registered
 	children   int
 }
 
@@ -159,6 +160,8 @@ type Sim struct {
 	Infra      string
 	OnPanic    func(t *Task, msg string)
 	OnLockLeak func(t *Task, held int)
+	// Hide, when set, lets the world stall tasks: a hidden task is not offered to the scheduler.
+	Hide func(t *Task) bool
 }
 
 var (
@@ -514,12 +517,16 @@ func (s *Sim) Spawn(name string, proc int, fn func()) *Task {
 func (s *Sim) register(t *Task, name string) {
 	t.ID = s.nextID
 	s.nextID++
+	t.Born = s.Steps
 	t.Name = name
 	t.parked = true
 	t.kind = KYield
 	t.lastKind = KYield
 	s.tasks = append(s.tasks, t)
 }
+
+// Sleeping reports whether the task is parked on the simulated clock (scheduler goroutine only).
+func (t *Task) Sleeping() bool { return !t.done && t.parked && t.lastKind == KSleep }
 
 // Tasks returns the live tasks.
 func (s *Sim) Tasks() []*Task {
@@ -535,6 +542,9 @@ func (s *Sim) Tasks() []*Task {
 func (s *Sim) enabled(t *Task) bool {
 	if t.done || !t.parked {
 		return false
+	}
+	if s.Hide != nil && s.Hide(t) {
+		return false // stalled by the world (slow node, GC pause, slow API call)
 	}
 	switch t.lastKind {
 	case KYield, KCall:
